@@ -207,6 +207,6 @@ func (u Union) Generate(w io.Writer, settings GenerateSettings) {
 	u.generateEncodeBebop(ew, settings, fields)
 	u.generateDecodeBebop(ew, settings, fields)
 	u.generateSize(ew, settings, fields)
-	isEmpty := len(u.Fields) == 0
-	writeWrappers(ew, u.Name, isEmpty, settings)
+	// a union with no members still has a length prefix on the wire
+	writeWrappers(ew, u.Name, false, settings)
 }
